@@ -39,6 +39,22 @@ def _event(args):
     new = w.df.iloc[sel].copy()
     if rng.random() < 0.5:
         new = new.reset_index(drop=True)
+    if rng.random() < 0.3:
+        # the same frame OBJECT evaluated before with other rows in it, then refilled in place:
+        # the result depends on what the frame holds now
+        sel0 = [rng.randrange(n) for _ in sel]
+        new = w.df.iloc[sel0].copy().reset_index(drop=True)
+        with warnings.catch_warnings():
+            warnings.simplefilter("ignore")
+            for part in ("common", "group"):
+                if getattr(dm, part) is not None:
+                    try:
+                        getattr(dm, part).evaluate_new_data(new)
+                    except Exception:  # pylint: disable=broad-except
+                        pass
+        for col in list(new.columns):
+            new[col] = w.df[col].iloc[sel].values
+        info["refilled_in_place_after"] = sel0
     out = []
     for j, part in enumerate(("common", "group")):
         m = getattr(dm, part)
@@ -87,7 +103,7 @@ def main(tier, seed):
         "S->C: Design_MC: every row sequence of length <= 2 (quick) / <= 3 (thorough) of every small-scope training frame "
         "(SubsetReproduces theorem + replay through evaluate_new_data); C->S: random worlds x formulas with nested and "
         "interacting stateful transforms (center, scale, standardize, bs, poly), C/T/S codings incl. levels=, ordered "
-        "categoricals and group terms; new frame = subset / permutation / repetition / single row / all rows of one level; "
+        "categoricals and group terms; new frame = subset / permutation / repetition / single row / all rows of one level, also as a frame object that was evaluated before and refilled in place; "
         "TLC judges result[i] = training[sel[i]] on value ids and equal slices. Non-trivial = distinct (formula, selection) pairs."
     )
     rep.assumptions = ["equality of cell values up to 1e-9 relative"]
